@@ -47,7 +47,8 @@ RULE = ("suite histories: stimulus histories (start/dns/conn/written/data/read/c
         "transports, writer tasks, lookup, armed timer deadlines, per-request outcome and failure time) is compared "
         "with the extracted model, and the oracle (bound, residue, isolation, follow-up request) is evaluated on the "
         "implementation.  suite stall_sweep: the response stalls after every byte offset x timer x below/above the "
-        "threshold.  suite cancel_sweep: task.cancel() before every loop iteration of complete exchanges.  "
+        "threshold.  suite cancel_sweep: task.cancel() before every loop iteration of complete exchanges.  suite ws_close: "
+        "ws.close() against a silent / chatty peer and cancelled at every iteration.  "
         "Non-trivial = at least one request ended by timeout or cancellation; distinct by hash of the history and "
         "its final implementation snapshot.")
 TRUSTED = [
@@ -932,7 +933,7 @@ def suite_histories(ctx, exe):
         c = c.get("case", c)
         if c.get("suite", "histories") == "histories":
             cases.append(c)
-    n = 0 if os.environ.get("C18_CORPUS_ONLY") else (2500 if ctx.quick else 40000)
+    n = 0 if os.environ.get("C18_CORPUS_ONLY") else (2500 if ctx.quick else 30000)
     for _ in range(n):
         limit = rng.choice([0, 0, 1, 1, 2])
         nreq = rng.choice([1, 1, 2, 3, 4])
@@ -1145,7 +1146,7 @@ WS_BASE = [["ws_start", 0, {"ws_close": 40}], ["dns"], ["conn", 0], ["adv", 1], 
 
 
 def run_ws_close(T, offset, peer, cancel_k=None):
-    """WebSocket close handshake: the peer never answers (stall), answers with text frames only for a while, or
+    """WebSocket close handshake: the peer never answers (stall), keeps sending text frames but no close frame, or
     the caller is cancelled before loop iteration cancel_k (counted from the close request)."""
     w = World(limit=1, offset=offset)
     problems = []
@@ -1168,13 +1169,14 @@ def run_ws_close(T, offset, peer, cancel_k=None):
             w.iter_hook = hook
         w.apply(["ws_close", 0])
         t_close = w.tick()
+        t_last = t_close                         # one deadline for the whole close handshake (fix 7b896a4)
         if peer == "text":
-            w.apply(["adv", 3])
-            w.apply(["ws_frame", 0, "text"])       # data, but no close frame: the close timeout restarts per message
-            t_last = w.tick()
+            # a peer that keeps sending data frames, but never a close frame, must not extend the wait
+            for _ in range((T + 40) // 3):
+                w.apply(["adv", 3])
+                w.apply(["ws_frame", 0, "text"])
         else:
-            t_last = t_close
-        w.apply(["adv", T + 40])
+            w.apply(["adv", T + 40])
         w.iter_hook = None
         snap = w.snapshot()
         out = w.outcome.get(0)
@@ -1209,12 +1211,21 @@ def run_ws_close(T, offset, peer, cancel_k=None):
 def suite_ws_close(ctx):
     ran = 0
     obs = None
+    for path in sorted(glob.glob(os.path.join(fw.VERIF, "corpus", "C18", "*.json"))):
+        c = json.load(open(path))
+        c = c.get("case", c)
+        if c.get("suite") == "ws_close":
+            obs, problems = run_ws_close(c["T"], c["offset"], c["peer"], c.get("cancel_k"))
+            ran += 1
+            ctx.case(("ws-corpus", os.path.basename(path), json.dumps(obs, sort_keys=True, default=str)), nontrivial=True)
+            for p in problems[:3]:
+                ctx.violation({k: c[k] for k in ("suite", "T", "offset", "peer", "cancel_k")}, p)
     for T in (6, 40, 80, 96):
         for off in (0, 5, 15):
             for peer in ("silent", "text"):
                 obs, problems = run_ws_close(T, off, peer)
                 ran += 1
-                ctx.case(("ws", T, off, peer, json.dumps(obs, sort_keys=True)), nontrivial=True)
+                ctx.case(("ws", T, off, peer, json.dumps(obs, sort_keys=True, default=str)), nontrivial=True)
                 ctx.count("ws_close:" + peer)
                 if obs.get("early"):
                     ctx.disagreement("ws_close", {"suite": "ws_close", "T": T, "offset": off, "peer": peer}, "returns exactly at the bound", obs["outcome"])
@@ -1226,7 +1237,7 @@ def suite_ws_close(ctx):
         if obs["cancel_at"] is None:
             break
         ran += 1
-        ctx.case(("ws-cancel", k, json.dumps(obs, sort_keys=True)), nontrivial=True)
+        ctx.case(("ws-cancel", k, json.dumps(obs, sort_keys=True, default=str)), nontrivial=True)
         ctx.count("ws_close:cancel")
         for p in problems[:3]:
             ctx.violation({"suite": "ws_close", "T": 40, "offset": 3, "peer": "silent", "cancel_k": k}, p)
@@ -1331,4 +1342,8 @@ def replay(ctx, case):
     return {"violates": None, "note": "unknown suite"}
 
 
-SIGNATURES: dict = {}
+def _sig_ws_chatty(case, params):
+    return case.get("suite") == "ws_close" and case.get("peer") == "text" and case.get("cancel_k") is None
+
+
+SIGNATURES: dict = {"ws_close_not_returned_chatty_peer": _sig_ws_chatty}
